@@ -96,6 +96,20 @@ pub fn c07_oracle(spec: &MpcSpec, run: &MpcRun, triple_budget: usize) -> (Vec<Vi
         "?".into()
     };
     let mut lookups = 0u64;
+    // "the evaluator holds exactly one label per wire and garbler": with the labels it holds for a
+    // gate it opens exactly one of the four rows (probed inside the engine with its own decryption)
+    for &h in &honest {
+        if let Some(pr) = run.res.probes[h].iter().find(|x| x.site == "eval_row_sibling_opened" && x.data.len() >= 16) {
+            let w = u64::from_le_bytes(pr.data[..8].try_into().unwrap());
+            let row = u64::from_le_bytes(pr.data[8..16].try_into().unwrap());
+            v.push(mk_violation(
+                "evaluator-opens-a-second-row",
+                "evaluator-opens-a-second-row".into(),
+                format!("evaluator {h}: the two labels it holds for the AND gate at instruction {w} also open row {row} of that gate (a second label of the output wire; together with the first one, the garbler's global key) [{what}]"),
+                spec,
+            ));
+        }
+    }
     for &h in &honest {
         let Some(delta) = key_of(run, h) else { continue };
         if delta == 0 {
@@ -168,7 +182,7 @@ impl Check for C07 {
         "fault_enumeration"
     }
     fn rule(&self) -> String {
-        "two kinds of evaluation: (a) honest simulated runs (circuits with NOT gates, all roles, n in 2..4); (b) attacked runs: every must-detect and optional deviation of the C04 catalogue (message deviations with the scripted adversary that never stops, self-consistent lies with the live adversary + taps) the structure-aware mutations of the online-phase messages, one per run, and a seeded swarm of multi-edit runs. Every single-message deviation is run twice: with the scripted adversary (keeps going whatever happens) and with the live adversary (real code on the corrupted side, so everything it transmits is computed from what it holds in this run). After each run everything sent by anyone is pooled, except counterfactual messages: what the scripted adversary replays after the honest parties' answers to it differ from the reference run (computed from another execution with the same secrets - a rewinding adversary, which the statement does not cover) and, causally, whatever honest parties send after consuming such a message; for every honest party h with probed global key D: D appears at no byte offset in either byte order; no two 16-byte windows (all offsets, both orders) XOR to D; no three decoded 128-bit fields XOR to D (pair budget per run: 3e5 in quick, 2e7 in thorough, which is exhaustive for the small configurations). The oracle is applied whatever the outcome of the run (a leak followed by an abort is a leak). distinct = (configuration, deviation) hash".into()
+        "two kinds of evaluation: (a) honest simulated runs (circuits with NOT gates, all roles, n in 2..4); (b) attacked runs: every must-detect and optional deviation of the C04 catalogue (message deviations with the scripted adversary that never stops, self-consistent lies with the live adversary + taps) the structure-aware mutations of the online-phase messages, one per run, and a seeded swarm of multi-edit runs. Every single-message deviation is run twice: with the scripted adversary (keeps going whatever happens) and with the live adversary (real code on the corrupted side, so everything it transmits is computed from what it holds in this run). After each run everything sent by anyone is pooled, except counterfactual messages: what the scripted adversary replays after the honest parties' answers to it differ from the reference run (computed from another execution with the same secrets - a rewinding adversary, which the statement does not cover) and, causally, whatever honest parties send after consuming such a message; for every honest party h with probed global key D: D appears at no byte offset in either byte order; no two 16-byte windows (all offsets, both orders) XOR to D; no three decoded 128-bit fields XOR to D (pair budget per run: 3e5 in quick, 2e7 in thorough, which is exhaustive for the small configurations). In every run the engine itself reports (probe) whether the labels the evaluator holds for an AND gate open any of the three other rows of that gate; none may. The oracle is applied whatever the outcome of the run (a leak followed by an abort is a leak). distinct = (configuration, deviation) hash".into()
     }
     fn assumptions(&self) -> Vec<String> {
         vec![
